@@ -136,11 +136,14 @@ class C16(common.Prop):
         self.PoseHeader, self.PoseHeaderComponent, self.PoseHeaderDimensions = PoseHeader, PoseHeaderComponent, PoseHeaderDimensions
 
     def make_body(self, be, fps, data, valid, conf):
+        lay = int(data.shape[0]) + int(data.size)        # memory layout of the arrays / tensors: a function of the case only
         if be == "np":
-            return self.NB(fps, np.ma.MaskedArray(data.copy(), mask=~valid), conf.copy())
+            return self.NB(fps, np.ma.MaskedArray(common.vary_layout(data.copy(), lay), mask=common.vary_layout(~valid, lay + 1)),
+                           common.vary_layout(conf.copy(), lay + 2))
         if be == "torch":
             t = self.torch
-            return self.TB(fps, self.TM(t.from_numpy(data.copy()), t.from_numpy(valid.copy())), t.from_numpy(conf.copy()))
+            return self.TB(fps, self.TM(common.vary_torch(t.from_numpy(data.copy()), lay), common.vary_torch(t.from_numpy(valid.copy()), lay + 1)),
+                           common.vary_torch(t.from_numpy(conf.copy()), lay + 2))
         tf = self.tf
         return self.FB(fps, self.FM(tf.constant(data), tf.constant(valid)), tf.constant(conf))
 
